@@ -922,8 +922,10 @@ func grpcStatusFromError(err error) (*statusv1.Status, error) {
 func grpcPercentEncode(bufferPool *bufferPool, msg string) string {
 	for i := 0; i < len(msg); i++ {
 		// Characters that need to be escaped are defined in gRPC's HTTP/2 spec.
-		// They're different from the generic set defined in RFC 3986.
-		if c := msg[i]; c < ' ' || c > '~' || c == '%' {
+		// They're different from the generic set defined in RFC 3986. A space at
+		// either end of the message is escaped, too: leading and trailing
+		// whitespace isn't part of an HTTP field value, so it wouldn't arrive.
+		if c := msg[i]; c < ' ' || c > '~' || c == '%' || (c == ' ' && (i == 0 || i == len(msg)-1)) {
 			return grpcPercentEncodeSlow(bufferPool, msg, i)
 		}
 	}
@@ -938,7 +940,7 @@ func grpcPercentEncodeSlow(bufferPool *bufferPool, msg string, offset int) strin
 	out.WriteString(msg[:offset])
 	for i := offset; i < len(msg); i++ {
 		c := msg[i]
-		if c < ' ' || c > '~' || c == '%' {
+		if c < ' ' || c > '~' || c == '%' || (c == ' ' && (i == 0 || i == len(msg)-1)) {
 			out.WriteString(fmt.Sprintf("%%%02X", c))
 			continue
 		}
